@@ -24,7 +24,8 @@ namespace detail
 	template<typename T>
 	GLM_FUNC_QUALIFIER T mask(T Bits)
 	{
-		return Bits >= static_cast<T>(sizeof(T) * 8) ? ~static_cast<T>(0) : (static_cast<T>(1) << Bits) - static_cast<T>(1);
+		typedef typename detail::make_unsigned<T>::type U;
+		return Bits >= static_cast<T>(sizeof(T) * 8) ? ~static_cast<T>(0) : static_cast<T>((static_cast<U>(1) << Bits) - static_cast<U>(1));
 	}
 
 	template<length_t L, typename T, qualifier Q, bool Aligned, bool EXEC>
